@@ -1,6 +1,7 @@
 package checks
 
 import (
+	"bytes"
 	"errors"
 	"fmt"
 	"io"
@@ -244,6 +245,9 @@ func c05Inputs(c *core.Ctx) [][]byte {
 	}
 	ins = append(ins, []byte(strings.Repeat("The quick brown fox jumps over the lazy dog. ", 112)[:5000]))
 	ins = append(ins, []byte(strings.Repeat("x", 3071)+"é"+"tail"))
+	// longer than any plausible fixed internal buffer (64 KiB, 1 MiB): limit 0 must drain them
+	ins = append(ins, append([]byte(strings.Repeat("line of text\n", 5400)), 0x00))
+	ins = append(ins, append(bytes.Repeat([]byte("0123456789abcdef"), 1<<16), 0x01, 'z'))
 	return ins
 }
 
@@ -313,6 +317,15 @@ func c05Run(c *core.Ctx) {
 				continue
 			}
 			small := n <= 12
+			if n > 60000 {
+				// huge inputs: the limit-0 / limit-3072 paths with at most one deviation, no fault sweep
+				if l == 0 || l == 3072 {
+					explore1(in, l, -1, false, 1, false, "huge-input")
+					explore1(in, l, n, false, 0, false, "huge-input-error-at-end")
+					explore1(in, l, 70000, true, 0, false, "huge-input-error-mid")
+				}
+				continue
+			}
 			// no fault
 			if small {
 				explore1(in, l, -1, false, -1, true, "all-chunkings")
